@@ -149,7 +149,7 @@ def predicate(kind, a_names, b_names):
     if kind == "only_one":
         # the caller wants a single clashing name kept apart and nothing else touched - preferably one whose
         # obvious replacement (name_0) the second method already uses
-        pick = [n for n in clash if n + "_0" in b_names] or clash
+        pick = [n for n in clash if n + "_0" in (a_names | b_names)] or clash
         one = pick[0] if pick else None
         f = lambda n: n == one   # noqa: E731
         return f, f
@@ -493,6 +493,6 @@ def shard(ctx, n):
 
 def run(ctx):
     if ctx.quick:
-        ctx.parallel(shard, 16, 60)
+        ctx.parallel(shard, 16, 250)
     else:
         ctx.parallel(shard, 16, 6000)
